@@ -1,0 +1,81 @@
+//! Verification hook, compiled only with `--cfg rs_tftpd_verif`.
+//!
+//! Provides a drop-in replacement for [`std::time::Instant`] that can be
+//! switched to a thread-local simulated clock, so that a simulated socket can
+//! decide exactly when a transfer timeout elapses. Unless
+//! [`set_virtual(true)`](set_virtual) has been called in the process, the
+//! replacement delegates to the real clock and behaves like the original.
+
+use std::cell::Cell;
+use std::ops::Sub;
+use std::sync::atomic::{AtomicBool, Ordering};
+use std::time::Duration;
+
+static VIRTUAL: AtomicBool = AtomicBool::new(false);
+
+/// Start value of every thread's simulated clock; large enough for
+/// `Instant::now() - duration` never to underflow.
+const EPOCH: Duration = Duration::from_secs(1 << 32);
+
+thread_local! {
+    static NOW: Cell<Duration> = const { Cell::new(EPOCH) };
+}
+
+/// Switches the whole process between the real clock and the simulated clock.
+pub fn set_virtual(on: bool) {
+    VIRTUAL.store(on, Ordering::SeqCst);
+}
+
+/// Returns `true` if the simulated clock is in use.
+pub fn is_virtual() -> bool {
+    VIRTUAL.load(Ordering::SeqCst)
+}
+
+/// Advances the calling thread's simulated clock.
+pub fn advance(by: Duration) {
+    NOW.with(|now| now.set(now.get() + by));
+}
+
+/// Time elapsed on the calling thread's simulated clock since the thread started.
+pub fn virtual_now() -> Duration {
+    NOW.with(|now| now.get()) - EPOCH
+}
+
+/// Shadow of [`std::time::Instant`] with the subset of its API used by the worker.
+#[derive(Clone, Copy, Debug)]
+pub enum Instant {
+    /// A point on the real monotonic clock.
+    Real(std::time::Instant),
+    /// A point on the thread-local simulated clock.
+    Virtual(Duration),
+}
+
+impl Instant {
+    /// See [`std::time::Instant::now`].
+    pub fn now() -> Instant {
+        if is_virtual() {
+            Instant::Virtual(NOW.with(|now| now.get()))
+        } else {
+            Instant::Real(std::time::Instant::now())
+        }
+    }
+
+    /// See [`std::time::Instant::elapsed`].
+    pub fn elapsed(&self) -> Duration {
+        match self {
+            Instant::Real(instant) => instant.elapsed(),
+            Instant::Virtual(then) => NOW.with(|now| now.get()).saturating_sub(*then),
+        }
+    }
+}
+
+impl Sub<Duration> for Instant {
+    type Output = Instant;
+
+    fn sub(self, rhs: Duration) -> Instant {
+        match self {
+            Instant::Real(instant) => Instant::Real(instant - rhs),
+            Instant::Virtual(then) => Instant::Virtual(then.saturating_sub(rhs)),
+        }
+    }
+}
